@@ -14,5 +14,6 @@ python3 translator/fdiff.py ${TV_REPO:-/repo} lean/Tv/GenFd.lean
 python3 translator/finals.py ${TV_REPO:-/repo} lean/Tv/GenFin.lean
 python3 translator/quant.py ${TV_REPO:-/repo} lean/Tv/GenQuant.lean
 python3 translator/ranks.py ${TV_REPO:-/repo} lean/Tv/GenRank.lean
+python3 translator/reads.py ${TV_REPO:-/repo} lean/Tv/GenReads.lean
 (cd lean && lake build Tv tvmodel)
 (cd harness && cargo build --features polars)
